@@ -356,8 +356,28 @@ pub fn sweep_client() -> (Vec<F>, usize, usize) {
         Some(json!([1, 2, 3])),
         Some(serde_json::from_str(&nested(100, true)).unwrap()),
     ];
-    for ttl in &ttls {
-        for meta in &metas {
+    // metas whose header encoding exercises the whole base64 alphabet (symbols 62 and 63, every
+    // padding length) and multi-byte characters at every alignment
+    let mut metas = metas;
+    let printable: String = (0x20u8..0x7f).map(|b| b as char).collect();
+    for pre in ["", "a", "ab"] {
+        metas.push(Some(json!({"k": format!("{}~~~???>>>{}", pre, printable)})));
+        metas.push(Some(json!({"k": format!("{}\u{fb}\u{ff}\u{3ff}\u{fbf}\u{ffff}\u{65e5}\u{1F600}", pre)})));
+    }
+    {
+        use base64::Engine as _;
+        let mut seen = std::collections::BTreeSet::new();
+        for m in metas.iter().flatten() {
+            seen.extend(base64::prelude::BASE64_STANDARD.encode(m.to_string()).chars());
+        }
+        assert!(seen.len() == 65, "harness: the meta family covers only {} of the 65 base64 characters", seen.len());
+    }
+    for (mi, ttl) in ttls.iter().enumerate() {
+        for (mj, meta) in metas.iter().enumerate() {
+            // the alphabet family once per ttl kind is enough
+            if mj >= 6 && mi > 1 {
+                continue;
+            }
             for c in [None, Some(ctx)] {
                 for body in [&b""[..], &b"content \xff bytes"[..]] {
                     n_app += 1;
@@ -844,7 +864,7 @@ pub fn run_c12(tier: &str, report: &mut Report) {
     report.cov("states", json!(total));
     report.cov("transitions", json!(total));
     report.cov("traces_validated_against_impl", json!(total));
-    report.cov("rule", json!("every concatenation of <=3 tokens of the 17-token TTL alphabet (deduplicated); every ReadOptions value of the 8x2x2x4x3 product; every query string of <=3 distinct-key pairs over the option alphabet (third pair thinned); every xs-meta text of the meta alphabet through POST /{topic}; frames over topic x hash x ttl x meta (one or two dimensions off the base point) through POST /import; the real client (xs::client::append / cat) against the real server over 7 TTLs x 6 metas x 2 contexts x 2 bodies and 120 non-following option combinations in both renderings; frames built as Rust values (12 TTL values incl. Head(0), Time beyond u64 ms, sub-ms x 4 metas) through Store::append and Store::insert_frame, each on a fresh store with read-back, collector probe and reopen. All inputs are distinct by construction; each goes through the real parser / HTTP boundary."));
+    report.cov("rule", json!("every concatenation of <=3 tokens of the 17-token TTL alphabet (deduplicated); every ReadOptions value of the 8x2x2x4x3 product; every query string of <=3 distinct-key pairs over the option alphabet (third pair thinned); every xs-meta text of the meta alphabet through POST /{topic}; frames over topic x hash x ttl x meta (one or two dimensions off the base point) through POST /import; the real client (xs::client::append / cat) against the real server over 7 TTLs x 6 metas (+ 6 metas covering the whole base64 alphabet of the xs-meta header, every padding length and multi-byte alignment) x 2 contexts x 2 bodies and 120 non-following option combinations in both renderings; frames built as Rust values (12 TTL values incl. Head(0), Time beyond u64 ms, sub-ms x 4 metas) through Store::append and Store::insert_frame, each on a fresh store with read-back, collector probe and reopen. All inputs are distinct by construction; each goes through the real parser / HTTP boundary."));
     report.cov("ttl_strings", json!({"accepted": ttl_acc, "rejected": ttl_rej}));
     report.cov("read_options", json!({"values": opt_vals, "query_strings": opt_q}));
     report.cov("frames", json!({"accepted": fr_acc, "rejected": fr_rej}));
